@@ -150,6 +150,17 @@ var c14Codec = probe.Define("C14", "codec", func(t *rapid.T) c14In {
 			return probe.Fail("encoding the same unmodified packet again gives different bytes (%v)", err)
 		}
 	}
+	// another packet is encoded in between: the octets Marshal returned earlier are the caller's and stay what they were
+	{
+		held := append([]byte(nil), w...)
+		otherPkt := &eap.EAP{Code: 2, Identifier: e.Identifier + 1, EapTypeData: &eap.EapIdentity{IdentityData: []byte("somebody-else@example.org")}}
+		if _, err := otherPkt.Marshal(); err != nil {
+			return probe.Fail("HARNESS: %v", err)
+		}
+		if !bytes.Equal(w, held) {
+			return probe.Fail("the octets Marshal returned for one packet changed when another packet was marshalled")
+		}
+	}
 	pe, err := ref.ParseEAP(w, true)
 	if err != nil {
 		return probe.Fail("encoded packet is not well-formed: %v\n w=%x", err, w)
